@@ -3,6 +3,7 @@ package c14
 
 import (
 	"fmt"
+	"github.com/twpayne/go-geom/bigxy"
 	"math"
 	"math/big"
 	"testing"
@@ -646,7 +647,10 @@ func propPolygons(c Case, l geom.Layout, polys [][][]pt, what string) error {
 			geom.NewPolygonFlat(l, nil, []int{0}),
 			geom.NewPolygonFlat(l, append(append([]float64{}, gps[0].FlatCoords()...), make([]float64, 2*l.Stride())...), append(append([]int{}, gps[0].Ends()...), len(gps[0].FlatCoords())+2*l.Stride())),
 		} {
-			_ = run.Safe(func() error { _ = xy.PolygonsCentroid(gps[0], append(append([]*geom.Polygon{}, gps[1:]...), bad)...); return nil })
+			_ = run.Safe(func() error {
+				_ = xy.PolygonsCentroid(gps[0], append(append([]*geom.Polygon{}, gps[1:]...), bad)...)
+				return nil
+			})
 			_ = run.Safe(func() error {
 				bm := geom.NewMultiPolygon(l)
 				for _, g := range append(append([]*geom.Polygon{}, gps...), bad) {
@@ -813,6 +817,16 @@ func propRings(c Case, l geom.Layout) error {
 }
 
 func prop(c Case) error {
+	// the exact-arithmetic package's other exported function runs first (whatever it
+	// returns or panics with): it shares nothing with what is measured here
+	_ = run.Safe(func() error {
+		_ = bigxy.Intersection(geom.Coord{0.1, 0.7}, geom.Coord{3.3, -1.9}, geom.Coord{-2.5, 0.3}, geom.Coord{4.7, 1.1})
+		return nil
+	})
+	return propMain(c)
+}
+
+func propMain(c Case) error {
 	l := geom.Layout(c.Layout)
 	curExp, curDiv = c.Exp, c.Div
 	defer func() { curExp, curDiv = 0, 0 }()
